@@ -357,7 +357,12 @@ func init() {
 			}
 			if extOrderLints[l.Name] {
 				c.Add(&Job{Label: "order/ext/" + l.Name, Pkg: rootPkg, Func: "VerifC17Order", Sweep: true, NoReplay: true,
-					Tune: func(cf *Config) { base(cf); cf.Bounds["*.Extensions"] = 2; cf.StrParams["sweep.lint"] = l.Name; cf.StrParams["c17.what"] = "ext" }})
+					Tune: func(cf *Config) {
+						base(cf)
+						cf.Bounds["*.Extensions"] = 2
+						cf.StrParams["sweep.lint"] = l.Name
+						cf.StrParams["c17.what"] = "ext"
+					}})
 			}
 		}
 		c.Extra["lints_selected"] = n
